@@ -24,7 +24,7 @@ P = "JanetModel.Props.C13."
 THEOREMS = [P + t for t in (
     "mul_chain_exact", "div_chain_exact", "neg_branch_at_least_4_digits", "msd_nonzero", "mant_estimate_sound",
     "scan_uint64_exact_or_rejected", "scan_int64_exact_or_rejected",
-    "extract_faithful_int", "extract_faithful_frac", "exact_when_representable", "within_one_ulp", "digit_table_correct", "ldexp_exact_normal",
+    "extract_faithful_int", "extract_faithful_frac", "exact_when_representable", "within_one_ulp", "nearest_unique", "digit_table_correct", "ldexp_exact_normal",
 )]
 
 ENV = dict(os.environ, ASAN_OPTIONS="detect_leaks=0:abort_on_error=0", UBSAN_OPTIONS="print_stacktrace=1")
@@ -161,11 +161,11 @@ def oracle(c, res):
         return None if res == want else "integer text round trip: expected %r" % want
     if k == "p17":
         parts = res.split(" ")
-        if len(parts) != 4:
+        if len(parts) != 6:
             return "unexpected output shape"
-        t1, t2, t3, back = parts
-        if not (t1 == t2 == t3):
-            return "the three 17-digit printing paths disagree"
+        t1, back = parts[0], parts[5]
+        if len(set(parts[:5])) != 1:
+            return "the 17-digit printing paths (dtostr, %j, %.17g via formatc and string/format) disagree"
         if back != "%016x" % c["bits"]:
             return "17-digit text does not read back as the identical double"
         try:
@@ -176,16 +176,21 @@ def oracle(c, res):
         return None
     if k == "pint":
         parts = res.split(" ")
-        if len(parts) != 2:
+        if len(parts) != 13:
             return "unexpected output shape"
         x = G.float_of_bits(c["bits"])
         want = str(int(x))
         if want == "-0":
             want = "0"
-        if parts[0] != want:
-            return "integer-valued double prints inexactly (expected %s)" % want
+        names = ["string", "describe", "%v", "%q", "%p", "%j", "fmt %v", "fmt %V", "fmt %q", "fmt %p", "fmt %j", "fmt %d"]
+        for nm, got in zip(names, parts[:12]):
+            w = want
+            if nm.endswith("%j") and c["bits"] == 1 << 63:
+                w = "-0"        # jdn keeps the sign of zero (reads back as -0.0)
+            if got != w:
+                return "integer-valued double prints inexactly through %s (expected %s)" % (nm, w)
         wb = c["bits"] if x != 0 else 0
-        if parts[1] != "%016x" % wb:
+        if parts[12] != "%016x" % wb:
             return "printed integer does not read back"
         return None
     if k == "big":
@@ -233,7 +238,7 @@ def run(ctx):
     impl = None
     if hx:
         impl, crashes = run_chunks(hx, lines, env=ENV)
-        for cr in crashes:
+        for cr in crashes[:3]:
             ctx.violation("crash:" + cr["line"][:60], {"kind": "crash", "line": cr["line"], "rc": cr["rc"], "stderr": cr["stderr"]},
                           what="implementation crashed / sanitizer report on `%s`" % cr["line"][:100])
     model = None
@@ -249,12 +254,26 @@ def run(ctx):
             broken.append("correspondence model/impl: %d differing lines, first %r" % (len(diffs), diffs[0]))
             ctx.broken.append(broken[-1])
     kinds = {}
+    nearest_checked = nearest_bad = 0
+    nearest_samples = []
     if impl is not None:
         for c, a in zip(cases, impl):
             kinds[c["kind"]] = kinds.get(c["kind"], 0) + 1
             why = oracle(c, a)
             if why:
                 fails.append((c, a, why))
+            elif "M" in c and c.get("M") is not None and a.startswith("ok ") and len(c.get("text", "")) <= 400:
+                # informational (stronger than the property): in the normal range the reader is nearest, ties away from zero
+                ne = G.nearest_expected(c["M"], c["b"], c["E"], c["P"])
+                if ne is not None:
+                    nearest_checked += 1
+                    if int(a[3:], 16) & (2 ** 63 - 1) != ne:
+                        nearest_bad += 1
+                        if len(nearest_samples) < 5:
+                            nearest_samples.append((c["text"][:80], a))
+        if nearest_bad:
+            broken.append("reader not nearest (ties away) in the normal range on %d literals, e.g. %r — contradicts NearestUpN of the model" % (nearest_bad, nearest_samples[0]))
+            ctx.broken.append(broken[-1])
     # report: one violation per (kind, reason class), shortest input as replay
     seen = {}
     import re as _re
@@ -307,6 +326,7 @@ def run(ctx):
         "exactly_representable_literals_in_first_20000": exact_n,
         "correspondence_lines": len(lines) if model is not None and impl is not None else 0, "correspondence_diffs": len(diffs),
         "oracle_failures": len(fails), "crashes": len(crashes),
+        "nearest_ties_away_checked_normal_range": nearest_checked, "nearest_ties_away_violations": nearest_bad,
     }
     ctx.say("cases %d  kinds %s" % (len(lines), kinds))
     ctx.say("result classes %s  diffs %d  oracle failures %d" % (res_kinds, len(diffs), len(fails)))
